@@ -34,6 +34,21 @@ func C02(c *vlib.Ctx) {
 			})
 		}
 	}
+	// long history (see C05): conservation across order-list compaction and id churn
+	wl := storecheck.DefaultWeights()
+	wl[storecheck.KChurn] = 5
+	for _, be := range []string{"memory", "sqlite"} {
+		churn := 1050
+		if be == "sqlite" {
+			churn = 150
+		}
+		for s := 0; s < c.N(4, 80); s++ {
+			r := vlib.Derive(c.Seed, "C02long", be, s)
+			g := storecheck.GenCfg{NIDs: r.Range(6, 24), Routes: stdRoutes[:2], Targets: stdTargets[:2], PaddedLeases: true, Weights: wl, Churn: churn}
+			storecheck.RunSequence(c, r, storecheck.RunCfg{Backends: []string{be}, Gen: g, Steps: r.Range(60, 100),
+				Label: fmt.Sprintf("C02/long/%s/seq%d", be, s), Props: map[string]bool{"C02": true}})
+		}
+	}
 	seqs := c.N(18, 300)
 	cfgs := storecheck.ConfigMatrix()
 	for _, be := range []string{"memory", "sqlite"} {
